@@ -43,6 +43,7 @@ func (c *Chip) ObserveElement(element gl.Variable) {
 	// Clear the output buffer
 	c.outputBuffer = make([]gl.Variable, 0)
 	c.inputBuffer = append(c.inputBuffer, element)
+	verifEvent(c.api, "observe", element.Limb, len(c.inputBuffer))
 	if len(c.inputBuffer) == poseidon.SPONGE_RATE {
 		c.duplexing()
 	}
@@ -93,6 +94,7 @@ func (c *Chip) GetChallenge() gl.Variable {
 
 	challenge := c.outputBuffer[len(c.outputBuffer)-1]
 	c.outputBuffer = c.outputBuffer[:len(c.outputBuffer)-1]
+	verifEvent(c.api, "challenge", challenge.Limb, len(c.outputBuffer))
 
 	return challenge
 }
@@ -144,6 +146,7 @@ func (c *Chip) GetFriChallenges(
 }
 
 func (c *Chip) duplexing() {
+	verifEvent(c.api, "duplex", len(c.inputBuffer))
 	if len(c.inputBuffer) > poseidon.SPONGE_RATE {
 		fmt.Println(len(c.inputBuffer))
 		panic("something went wrong")
